@@ -13,5 +13,8 @@ int
 main(int argc, String *argv)
 {
 	osFixCmdLine(&argc, &argv);
-	return compCmd(argc, argv);
+	int	rc = compCmd(argc, argv);
+
+	/* The exit status keeps only the low 8 bits: 256 errors must not read as success. */
+	return (rc > 255 || rc < 0) ? 255 : rc;
 }
